@@ -11,6 +11,7 @@ pub mod c05;
 pub mod c06;
 pub mod c07;
 pub mod c08;
+pub mod c09;
 pub mod c10;
 pub mod c11;
 pub mod c12;
@@ -35,6 +36,7 @@ pub fn run(prop: &str, report: &Report) -> i32 {
         "C06" => c06::run(report),
         "C07" => c07::run(report),
         "C08" => c08::run(report),
+        "C09" => c09::run(report),
         "C10" => c10::run(report),
         "C11" => c11::run(report),
         "C12" => c12::run(report),
@@ -61,6 +63,7 @@ pub fn replay(f: &Failure) -> i32 {
         "c06" => crate::core::replay_case(f, c06::case),
         "c07" => crate::core::replay_case(f, c07::case),
         "c08" => crate::core::replay_case(f, c08::case),
+        "c09" => crate::core::replay_case(f, c09::case),
         "c10a_varint" => crate::core::replay_case(f, c10::case_varint),
         "c10b_pn" => crate::core::replay_case(f, c10::case_pn),
         "c10b_pn_diff" => crate::core::replay_case(f, c10::case_pn_diff),
